@@ -69,11 +69,22 @@ class Builder:
         self.n = 0
         self.files = {}  # path -> bytes written (inputs the description names)
 
+    symlink = False   # True: every file the description names is a SYMBOLIC LINK to the file that holds the bytes
+
     def _file(self, data: bytes, name: str | None = None) -> str:
         self.n += 1
         p = self.dir / (name or f"f{self.n}.bin")
         p.parent.mkdir(parents=True, exist_ok=True)
-        p.write_bytes(data)
+        if self.symlink:
+            target = p.with_name("t_" + p.name)   # link text ("t_<name>") has another length than the file
+            target.write_bytes(data)
+            if p.is_symlink() or p.exists():
+                p.unlink()
+            p.symlink_to(target.name)
+        else:
+            if p.is_symlink():
+                p.unlink()
+            p.write_bytes(data)
         self.files[str(p)] = data
         return str(p)
 
